@@ -1,10 +1,10 @@
 (* Draw/Links.v -- model of the link / anchor gathering and resolution of
    /repo/html/document/document.go:
 
-     gatherLinksAndBookmarks  (126-184)  per page: walk the laid-out boxes in
+     gatherLinksAndBookmarks  (127-185)  per page: walk the laid-out boxes in
                                          document order, keep links, bookmarks
                                          and the FIRST box of every anchor name
-     resolveLinks             (314-346)  per document: an anchor name is kept
+     resolveLinks             (315-355)  per document: an anchor name is kept
                                          on the first page that has it; internal
                                          links to names nobody defines are
                                          dropped; everything else is kept
@@ -15,7 +15,8 @@
 
    Go's per-page anchor table is a map.  Its CONTENT is modelled by `gather`
    (an association list in insertion order); resolveLinks iterates over it in
-   an unspecified order, so `resolve` takes, for every page, the enumeration of
+   an order that is not the insertion order (Go map order originally, sorted
+   names since the C15 fix), so `resolve` takes, for every page, the enumeration of
    the map it is given (`p_anchors`): the theorems quantify over every
    enumeration that is a permutation of the gathered content. *)
 From Verif Require Export Base.GoSem.
@@ -49,7 +50,7 @@ Record link := mklink { ltyp : ltype; ltarget : name; lrect : rect }.
 Record anchor := mkanchor { aname : name; apos : pos }.
 Record bookmark := mkbk { blevel : Z; blabel : name; bpos : pos; bopen : bool }.
 
-(* What gatherLinksAndBookmarks reads of one laid-out box (document.go:135-150). *)
+(* What gatherLinksAndBookmarks reads of one laid-out box (document.go:136-151). *)
 Record box := mkbox {
   b_anchor : name;                 (* string(box.Style.GetAnchor()); [] = none *)
   b_link : option (ltype * name);  (* box.Style.GetLink(): None when IsNone() *)
@@ -67,28 +68,28 @@ Definition has_name (n : name) (m : list anchor) : bool :=
 
 Record gathered := mkgathered { g_anchors : list anchor; g_links : list link; g_bks : list bookmark }.
 
-(* document.go:144-178 for one box, the map being `g_anchors` *)
+(* document.go:145-179 for one box, the map being `g_anchors` *)
 Definition gather_box (g : gathered) (b : box) : gathered :=
-  let has_bookmark := negb (is_empty (b_label b)) && negb (b_level b =? 0)%Z in   (* :144 *)
+  let has_bookmark := negb (is_empty (b_label b)) && negb (b_level b =? 0)%Z in   (* :145 *)
   let links :=
     match b_link b with
     | Some (ty, target) =>
-        if b_textline b then g_links g                                            (* :146 *)
+        if b_textline b then g_links g                                            (* :147 *)
         else
-          let ty' := if ltype_eqb ty LExternal && b_attach b then LAttachment else ty in  (* :156 *)
+          let ty' := if ltype_eqb ty LExternal && b_attach b then LAttachment else ty in  (* :157 *)
           g_links g ++ [mklink ty' target (b_rect b)]
     | None => g_links g
     end in
   let bks := if has_bookmark
-             then g_bks g ++ [mkbk (b_level b) (b_label b) (b_pos b) (b_open b)]  (* :171 *)
+             then g_bks g ++ [mkbk (b_level b) (b_label b) (b_pos b) (b_open b)]  (* :172 *)
              else g_bks g in
-  (* :148-149 in case of duplicate IDs, only the first is an anchor *)
+  (* :149-150 in case of duplicate IDs, only the first is an anchor *)
   let has_anchor := negb (is_empty (b_anchor b)) && negb (has_name (b_anchor b) (g_anchors g)) in
-  let anchors := if has_anchor then g_anchors g ++ [mkanchor (b_anchor b) (b_pos b)]  (* :177 *)
+  let anchors := if has_anchor then g_anchors g ++ [mkanchor (b_anchor b) (b_pos b)]  (* :178 *)
                  else g_anchors g in
   mkgathered anchors links bks.
 
-(* the recursion of :181-183 visits the boxes of the page in pre-order: the
+(* the recursion of :182-184 visits the boxes of the page in pre-order: the
    input is that pre-order list *)
 Definition gather (boxes : list box) : gathered :=
   fold_left gather_box boxes (mkgathered [] [] []).
@@ -104,7 +105,8 @@ Record page := mkpage {
 
 Definition in_set (n : name) (s : list name) : bool := existsb (name_eqb n) s.
 
-(* :319-324, one page: returns (current, anchors) *)
+(* :327-333, one page: returns (current, anchors).  Since /repo commit 9dc0f60 the
+   names are iterated in sorted order; the model stays parametric in the order. *)
 Fixpoint page_anchors (seen : list name) (it : list anchor) : list anchor * list name :=
   match it with
   | [] => ([], seen)
@@ -113,7 +115,7 @@ Fixpoint page_anchors (seen : list name) (it : list anchor) : list anchor * list
       else let '(cur, seen') := page_anchors (aname a :: seen) r in (a :: cur, seen')
   end.
 
-(* :317-326 *)
+(* :318-335 *)
 Fixpoint paged_anchors (seen : list name) (pages : list page) : list (list anchor) * list name :=
   match pages with
   | [] => ([], seen)
@@ -123,7 +125,7 @@ Fixpoint paged_anchors (seen : list name) (pages : list page) : list (list ancho
       (cur :: rest, seen'')
   end.
 
-(* :330-342 *)
+(* :339-351 *)
 Definition keep_link (seen : list name) (l : link) : bool :=
   match ltyp l with
   | LInternal => in_set (ltarget l) seen
